@@ -546,6 +546,129 @@ func (b *built) shapeTsEdge() bool {
 	return true
 }
 
+// ------------------------------------------------ compact length prefix shapes
+//
+// For flexible produce versions the partition's records are COMPACT_BYTES:
+// UNSIGNED_VARINT(len+1) + bytes. The client writes the prefix for the
+// uncompressed batch first and repairs it after compression, which may make
+// it 1, 2 or 3 bytes narrower. uvarintWidth: 1 byte up to 127, 2 up to 16383,
+// 3 up to 2097151, 4 up to 268435455.
+
+func uvarintWidth(v int) int {
+	w := 1
+	for v >= 0x80 {
+		v >>= 7
+		w++
+	}
+	return w
+}
+
+func zigzagLen32(v int32) int { return uvarintWidth64(uint64(uint32(v<<1) ^ uint32(v>>31))) }
+func zigzagLen64(v int64) int { return uvarintWidth64(uint64(v<<1) ^ uint64(v>>63)) }
+func uvarintWidth64(v uint64) int {
+	w := 1
+	for v >= 0x80 {
+		v >>= 7
+		w++
+	}
+	return w
+}
+
+// fastBatchLen computes refBatchLen for v3+ without building the bytes
+// (megabyte-sized batches are searched with it; build verifies the result
+// against the real reference encoder once).
+func fastBatchLen(recs []recSpec) int {
+	total := 61
+	for i, r := range recs {
+		bl := func(b []byte) int {
+			if b == nil {
+				return 1
+			}
+			return zigzagLen32(int32(len(b))) + len(b)
+		}
+		l := 1 + zigzagLen64(r.Ts-recs[0].Ts) + zigzagLen32(int32(i)) + bl(r.Key) + bl(r.Val) + zigzagLen32(int32(len(r.Hdrs)))
+		for _, h := range r.Hdrs {
+			l += zigzagLen32(int32(len(h.K))) + len(h.K) + bl(h.V)
+		}
+		total += zigzagLen32(int32(l)) + l
+	}
+	return total
+}
+
+// payloadBytes: "zero" all-zero, "rep" three-letter pattern, "rnd"
+// incompressible, "mix" three quarters incompressible then zeros (compresses
+// by about a quarter: the compressed form stays in a wide prefix class).
+func payloadBytes(kind string, n int, seed uint64) []byte {
+	switch kind {
+	case "zero":
+		return make([]byte, n)
+	case "rep":
+		return fill(n, seed, true)
+	case "mix":
+		out := make([]byte, n)
+		copy(out, fill(n*3/4, seed, false))
+		return out
+	}
+	return fill(n, seed, false)
+}
+
+// prefixLimits picks limits that hold a batch of l1-1 bytes and a second partition.
+func prefixLimits(l1 int) (batchMax, writeMax int32) {
+	switch {
+	case l1 <= 500:
+		return 512, 1024
+	case l1 <= 32000:
+		return 32768, 65536
+	case l1 <= 130000:
+		return 131072, 262144
+	}
+	return 4 << 20, 8 << 20
+}
+
+// shapePrefix: partition (0,0) gets nrec records that as one batch encode to
+// exactly l1-1 bytes, i.e. the compact length prefix of the uncompressed batch
+// is UNSIGNED_VARINT(l1); every other partition gets one small record so that
+// its bytes follow (or precede) the repaired batch in the same request.
+func (b *built) shapePrefix(l1 int, payload string, nrec int) bool {
+	if b.V < 3 || nrec < 1 {
+		return false
+	}
+	target := l1 - 1
+	body := target - 61
+	each := body/nrec - 12
+	if each < 0 {
+		each = 0
+	}
+	var recs []recSpec
+	for i := 0; i < nrec-1; i++ {
+		recs = append(recs, recSpec{Key: []byte{byte('a' + i)}, Val: payloadBytes(payload, each, uint64(i+1)), Ts: tsBase + int64(i)})
+	}
+	last := recSpec{Ts: tsBase + int64(nrec-1)}
+	for tweak := 0; tweak < 4; tweak++ {
+		if tweak > 0 {
+			last.Key = make([]byte, tweak-1) // empty, then growing: moves the total by one byte
+		}
+		probe := make([]byte, target) // only its length matters while searching
+		n := padTo(func(n int) int {
+			l := last
+			l.Val = probe[:n]
+			return fastBatchLen(append(append([]recSpec(nil), recs...), l))
+		}, target, target)
+		if n < 0 {
+			continue
+		}
+		last.Val = payloadBytes(payload, n, 77)
+		recs = append(recs, last)
+		if refBatchLen(b.V, recs) != target {
+			return false // fastBatchLen and the reference encoder disagree: never expected
+		}
+		b.Recs = b.others(recs)
+		b.Note = fmt.Sprintf("%d %s records of partition (0,0) as one batch: %d bytes, compact length prefix UNSIGNED_VARINT(%d) = %d bytes before compression", nrec, payload, target, l1, uvarintWidth(l1))
+		return true
+	}
+	return false
+}
+
 // build derives everything from the case id; ok=false: the shape does not
 // apply to this combination (e.g. packing a request with one partition).
 func build(c caseSpec) (b *built, ok bool, err error) {
@@ -588,6 +711,10 @@ func build(c caseSpec) (b *built, ok bool, err error) {
 		}
 	case "tiny", "tinyedge":
 		b.BatchMax, b.WriteMax = 1024, 2048
+	case "prefix":
+		b.BatchMax, b.WriteMax = prefixLimits(d)
+	case "bigpack": // pack with batches of > 16383 bytes: three byte compact length prefixes at the write limit
+		b.BatchMax, b.WriteMax = 32768, 65536
 	}
 	if c.Txn > 64 {
 		// a long transactional id eats the request: keep the room for batches the same
@@ -601,7 +728,7 @@ func build(c caseSpec) (b *built, ok bool, err error) {
 		ok = b.shapeEdge(d, args[1])
 	case "toolarge":
 		ok = b.shapeTooLarge(d)
-	case "pack":
+	case "pack", "bigpack":
 		ok = b.shapePack(d)
 	case "tinyedge":
 		ok = b.shapeTinyEdge(d)
@@ -611,6 +738,15 @@ func build(c caseSpec) (b *built, ok bool, err error) {
 		ok = b.shapeMixed(arg == "compressible")
 	case "tsedge":
 		ok = b.shapeTsEdge()
+	case "prefix":
+		nrec := 0
+		if len(args) == 3 {
+			nrec, _ = strconv.Atoi(strings.TrimPrefix(args[2], "r"))
+		}
+		if nrec < 1 {
+			return nil, false, fmt.Errorf("shape %q: want prefix:<len+1>:<zero|rep|mix|rnd>:r<records>", c.Shape)
+		}
+		ok = b.shapePrefix(d, args[1], nrec)
 	default:
 		return nil, false, fmt.Errorf("unknown shape %q", c.Shape)
 	}
@@ -642,7 +778,9 @@ type shapeMode struct {
 
 func shapeList(thorough bool) []shapeMode {
 	var out []shapeMode
-	add := func(cold bool, format string, a ...any) { out = append(out, shapeMode{fmt.Sprintf(format, a...), cold}) }
+	add := func(cold bool, format string, a ...any) {
+		out = append(out, shapeMode{fmt.Sprintf(format, a...), cold})
+	}
 	if thorough {
 		for _, fl := range []string{"plain", "hdr", "bigts"} {
 			for _, d := range rangeInts(-8, 2) {
@@ -728,6 +866,122 @@ func grid(thorough bool) []caseSpec {
 								continue
 							}
 							out = append(out, caseSpec{V: v, Codec: codec, Cid: cid, Txn: txn, NT: lay.nt, NP: lay.np, Shape: sm.shape, Cold: sm.cold})
+						}
+					}
+				}
+			}
+		}
+	}
+	return append(out, prefixGrid(thorough)...)
+}
+
+// prefixGrid: the compact length prefix sub-grid. Uncompressed batch lengths
+// whose prefix value len+1 sits just below / on / above the uvarint width
+// boundaries 128, 16384 and 2097152 (plus 20 KiB, 64 KiB and 3 MiB inside the
+// classes), crossed with payloads that compress to a narrower class (zero,
+// rep), to about three quarters (mix) or not at all (rnd), single- and
+// multi-record batches, alone in the request or next to other partitions, for
+// every compressor. Quick: v9-13; thorough: v3-13 (v3-8 carry a fixed INT32
+// prefix: control group).
+// expectedPairs lists the (codec, prefix width before > after compression)
+// pairs a complete run of the tier is known to reach on the unchanged tree; a
+// run that misses one of them reports an infrastructure error instead of a
+// vacuous "held".
+func expectedPairs(thorough bool) []string {
+	out := []string{
+		"gzip:1>1", "gzip:2>1", "gzip:2>2", "gzip:3>1", "gzip:3>2", "gzip:4>2",
+		"snappy:1>1", "snappy:2>1", "snappy:2>2", "snappy:3>2",
+		"lz4:2>1", "lz4:2>2", "lz4:3>2",
+		"zstd:1>1", "zstd:2>1", "zstd:2>2", "zstd:3>1", "zstd:3>2", "zstd:4>2",
+	}
+	if thorough {
+		out = append(out, thoroughPairs...)
+	}
+	return out
+}
+
+// thoroughPairs: the additional pairs reached by the thorough sizes (64 KiB, 2 MiB +-, 3 MiB) and payloads.
+var thoroughPairs = []string{}
+
+func prefixGrid(thorough bool) []caseSpec {
+	var out []caseSpec
+	add := func(v int, codec string, lay layout, cold bool, l1 int, payload string, nrec int) {
+		out = append(out, caseSpec{V: v, Codec: codec, NT: lay.nt, NP: lay.np, Cold: cold, Shape: fmt.Sprintf("prefix:%d:%s:r%d", l1, payload, nrec)})
+	}
+	codecs := []string{"gzip", "snappy", "lz4", "zstd"}
+	// bigpack: requests packed to BrokerMaxWriteBytes+d with batches whose compact prefix is three bytes
+	if thorough {
+		for v := 3; v <= 13; v++ {
+			for _, codec := range []string{"none", "gzip"} {
+				for _, lay := range []layout{{1, 3}, {3, 2}} {
+					for _, d := range rangeInts(-2, 3) {
+						out = append(out, caseSpec{V: v, Codec: codec, NT: lay.nt, NP: lay.np, Shape: fmt.Sprintf("bigpack:%d", d)})
+					}
+					for _, d := range []int{0, 1} {
+						out = append(out, caseSpec{V: v, Codec: codec, NT: lay.nt, NP: lay.np, Cold: true, Shape: fmt.Sprintf("bigpack:%d", d)})
+					}
+				}
+			}
+		}
+	} else {
+		for v := 9; v <= 13; v++ {
+			for _, d := range []int{-1, 0, 1, 2} {
+				out = append(out, caseSpec{V: v, Codec: "none", NT: 1, NP: 3, Shape: fmt.Sprintf("bigpack:%d", d)})
+			}
+		}
+	}
+	if !thorough {
+		for v := 9; v <= 13; v++ {
+			for _, codec := range codecs {
+				for _, lay := range []layout{{1, 1}, {1, 2}} {
+					for _, l1 := range []int{127, 128, 16383, 16384, 20481} {
+						for _, payload := range []string{"zero", "mix", "rnd"} {
+							for _, nrec := range []int{1, 4} {
+								add(v, codec, lay, false, l1, payload, nrec)
+							}
+						}
+					}
+				}
+			}
+		}
+		for _, v := range []int{9, 13} {
+			for _, codec := range []string{"gzip", "zstd"} {
+				for _, l1 := range []int{2097151, 2097152} {
+					add(v, codec, layout{1, 2}, false, l1, "zero", 1)
+				}
+			}
+		}
+		return out
+	}
+	small := []int{126, 127, 128, 129, 16382, 16383, 16384, 16385, 20481, 65537}
+	big := []int{2097150, 2097151, 2097152, 2097153, 3145729}
+	payloads := []string{"zero", "rep", "mix", "rnd"}
+	for v := 3; v <= 13; v++ {
+		for _, codec := range append(append([]string(nil), codecs...), "zstd,gzip") {
+			for _, lay := range []layout{{1, 1}, {1, 2}, {3, 2}} {
+				for _, l1 := range small {
+					for _, payload := range payloads {
+						for _, nrec := range []int{1, 4} {
+							add(v, codec, lay, false, l1, payload, nrec)
+						}
+					}
+				}
+			}
+			if v >= 9 {
+				for _, l1 := range []int{128, 16384, 20481} {
+					add(v, codec, layout{1, 2}, true, l1, "zero", 1)
+				}
+			}
+		}
+		if v < 9 {
+			continue
+		}
+		for _, codec := range codecs {
+			for _, lay := range []layout{{1, 1}, {1, 2}} {
+				for _, l1 := range big {
+					for _, payload := range payloads {
+						for _, nrec := range []int{1, 4} {
+							add(v, codec, lay, false, l1, payload, nrec)
 						}
 					}
 				}
